@@ -140,3 +140,37 @@ Proof. intros Hs. split; [|apply (al_get_none path_cmp)].
   intros v. split; [apply (al_get_some path_cmp)|].
   intros (k & Hin & He). unfold mm_get. rewrite (al_get_eqkey path_cmp path_cmp_lawful p k m He).
   now apply (al_get_in path_cmp path_cmp_lawful). Qed.
+
+(** ** the plan depends on the exclude list only as a SET of patterns: order, repetitions and patterns implied by
+    others make no difference - every pattern of the list counts, none can be dropped because another `covers` it
+    unless it really excludes nothing more *)
+Lemma is_excluded_same_set rel ex1 ex2 :
+  (forall p, In p ex1 <-> In p ex2) -> is_excluded rel ex1 = is_excluded rel ex2.
+Proof.
+  intros Hs. destruct (is_excluded rel ex1) eqn:E1, (is_excluded rel ex2) eqn:E2; try reflexivity.
+  - apply is_excluded_iff in E1. destruct E1 as (p & Hin & Hp).
+    assert (H2 : is_excluded rel ex2 = true) by (apply is_excluded_iff; exists p; split; [apply Hs; exact Hin|exact Hp]). congruence.
+  - apply is_excluded_iff in E2. destruct E2 as (p & Hin & Hp).
+    assert (H1 : is_excluded rel ex1 = true) by (apply is_excluded_iff; exists p; split; [apply Hs; exact Hin|exact Hp]). congruence.
+Qed.
+
+Lemma is_excluded_drop_sound rel ex1 ex2 :
+  (forall p, In p ex2 -> In p ex1) -> is_excluded rel ex2 = true -> is_excluded rel ex1 = true.
+Proof. intros Hs E2. apply is_excluded_iff in E2. destruct E2 as (p & Hin & Hp). apply is_excluded_iff. exists p. split; [apply Hs; exact Hin|exact Hp]. Qed.
+
+Theorem build_plan_same_set src dst ex1 ex2 del :
+  (forall p, In p ex1 <-> In p ex2) -> build_plan src dst ex1 del = build_plan src dst ex2 del.
+Proof.
+  intros Hs. unfold build_plan.
+  assert (H1 : plan_source src dst ex1 = plan_source src dst ex2).
+  { induction src as [|[p m] r IH]; [reflexivity|]. cbn [plan_source]. rewrite IH, (is_excluded_same_set p ex1 ex2 Hs). reflexivity. }
+  assert (H2 : plan_delete src dst ex1 = plan_delete src dst ex2).
+  { clear H1. induction dst as [|[p m] r IH]; [reflexivity|]. cbn [plan_delete]. rewrite IH, (is_excluded_same_set p ex1 ex2 Hs). reflexivity. }
+  rewrite H1, H2. reflexivity.
+Qed.
+
+(** a list from which a pattern was DROPPED plans the same only if that pattern excluded nothing the others do not:
+    a concrete pair where dropping the `covered` pattern changes the plan (`?.b` does not cover `*.b`) *)
+Example dropping_a_pattern_changes_the_plan :
+  is_excluded [120; 121; 46; 98] [[63; 46; 98]; [42; 46; 98]] = true /\ is_excluded [120; 121; 46; 98] [[63; 46; 98]] = false.
+Proof. split; vm_compute; reflexivity. Qed.
